@@ -9,6 +9,8 @@ package main
 import (
 	"context"
 	"errors"
+	"io"
+	"log"
 	"net"
 	"sort"
 	"sync"
@@ -435,7 +437,7 @@ func (r *lcRun) step(o lcOp) {
 	case opUnhold:
 		r.doUnhold()
 	case opSend, opPeerReset:
-		if cl.state != 1 || cl.blocked {
+		if cl.state != 1 || cl.blocked || cl.partial != nil {
 			return
 		}
 		mode := o.arg
@@ -461,7 +463,7 @@ func (r *lcRun) step(o lcOp) {
 			r.awaitReplies(cl, 1)
 		}
 	case opPipelined:
-		if cl.state != 1 || cl.blocked {
+		if cl.state != 1 || cl.blocked || cl.partial != nil {
 			return
 		}
 		a := lcRequest(r.newTid(cl), hNormal)
@@ -469,7 +471,7 @@ func (r *lcRun) step(o lcOp) {
 		cl.conn.clSend(append(a, b...))
 		r.awaitReplies(cl, 2)
 	case opGarbage:
-		if cl.state != 1 || cl.blocked {
+		if cl.state != 1 || cl.blocked || cl.partial != nil {
 			return
 		}
 		cl.conn.clSend([]byte{0xff, 0xff, 0xff, 0xff, 0xff, 0xff, 0xff, 0xff, 0xff, 0xff, 0xff, 0xff})
@@ -801,6 +803,7 @@ func lcRandomScript(g *rng) []lcOp {
 func init() {
 	streams["lifecycle"] = func(seed uint64, thorough bool) {
 		g := newRng(seed ^ 0x17c17)
+		log.SetOutput(io.Discard) // the server's default onErrorFunc logs through the standard logger
 		type job struct {
 			cfg    int
 			script []lcOp
